@@ -53,7 +53,10 @@ def run_one(pid, tier, seed):
     try:
         mod.check(run)
     except core.Abort as e:
-        run.note(f"aborted: {e}")
+        # the machinery could not run (a build failed, a tool is missing): that is no verdict — never report `ok`
+        print(f"[{pid}] ABORTED: {e}", flush=True)
+        run.write_evidence(internal_error=str(e)[-2000:])
+        return 2
     except Exception:
         # an internal error of the machinery is not a verdict about the code: report loudly, exit 2
         traceback.print_exc()
